@@ -49,7 +49,7 @@ PROPS["C01"] = {
     "required_classes": ["acknowledgements_verified_in_a_crash_image", "crash_images", "images_followed_by_suffix_workload", "recrash_images"],
     "units": [
         {"test": "^TestC01Crash$", "quick": {"checks": 5, "shards": 2, "procs": 8, "timeout": 600},
-         "thorough": {"checks": 60, "shards": 4, "procs": 4, "timeout": 7200}},
+         "thorough": {"checks": 24, "shards": 4, "procs": 4, "timeout": 7200}},
         {"test": "^TestC01ConcAck$", "quick": {"checks": 40, "shards": 4}, "thorough": {"checks": 1500, "shards": 8, "timeout": 7200}},
     ],
 }
@@ -65,7 +65,7 @@ PROPS["C07"] = {
     "units": [
         {"test": "^TestRegressC07$", "norapid": True, "quick": {"shards": 1}, "thorough": {"shards": 1}},
         {"test": "^TestC07Crash$", "quick": {"checks": 5, "shards": 2, "procs": 8, "timeout": 600},
-         "thorough": {"checks": 60, "shards": 4, "procs": 4, "timeout": 7200}},
+         "thorough": {"checks": 24, "shards": 4, "procs": 4, "timeout": 7200}},
         {"test": "^TestC07ConcAck$", "quick": {"checks": 40, "shards": 4}, "thorough": {"checks": 1500, "shards": 8, "timeout": 7200}},
     ],
 }
@@ -99,7 +99,7 @@ PROPS["C04"] = {
         {"test": "^TestC04Seq$", "quick": {"checks": 60, "shards": 4}, "thorough": {"checks": 800, "shards": 8, "steps": 60}},
         {"test": "^TestC04Full$", "quick": {"checks": 40, "shards": 4, "steps": 40}, "thorough": {"checks": 500, "shards": 8, "steps": 60}},
         {"test": "^TestC04Crash$", "quick": {"checks": 5, "shards": 2, "procs": 5, "timeout": 600},
-         "thorough": {"checks": 60, "shards": 4, "procs": 4, "timeout": 7200}},
+         "thorough": {"checks": 24, "shards": 4, "procs": 4, "timeout": 7200}},
     ],
 }
 
@@ -117,7 +117,7 @@ PROPS["C05"] = {
         {"test": "^TestC05Seq$", "quick": {"checks": 40, "shards": 8}, "thorough": {"checks": 600, "shards": 12, "steps": 50}},
         {"test": "^TestC05Full$", "quick": {"checks": 40, "shards": 4, "steps": 40}, "thorough": {"checks": 600, "shards": 8, "steps": 60}},
         {"test": "^TestC05Crash$", "quick": {"checks": 4, "shards": 2, "procs": 4, "timeout": 600},
-         "thorough": {"checks": 50, "shards": 4, "procs": 4, "timeout": 7200}},
+         "thorough": {"checks": 20, "shards": 4, "procs": 4, "timeout": 7200}},
     ],
 }
 
@@ -135,7 +135,7 @@ PROPS["C12"] = {
         {"test": "^TestC12Seq$", "quick": {"checks": 80, "shards": 6}, "thorough": {"checks": 1200, "shards": 12, "steps": 60}},
         {"test": "^TestC12Full$", "quick": {"checks": 40, "shards": 4, "steps": 40}, "thorough": {"checks": 500, "shards": 8, "steps": 60}},
         {"test": "^TestC12Crash$", "quick": {"checks": 4, "shards": 2, "procs": 4, "timeout": 600},
-         "thorough": {"checks": 50, "shards": 4, "procs": 4, "timeout": 7200}},
+         "thorough": {"checks": 20, "shards": 4, "procs": 4, "timeout": 7200}},
     ],
 }
 
